@@ -21,8 +21,8 @@ def failing_tests(out):
     return sorted(l.split()[1] for l in out.splitlines() if l.startswith("test ") and l.rstrip().endswith("FAILED"))
 
 
-def confirm(pid, x):
-    src = f"/tmp/seed/{pid}/out/{x}"
+def confirm(pid, x, base="/tmp/seed", tag=""):
+    src = f"{base}/{pid}/out/{x}"
     patch = os.path.join(src, "patch.diff")
     demo = os.path.join(src, "demo.rs")
     os.makedirs("/tmp/seedconfirm", exist_ok=True)
@@ -49,7 +49,7 @@ def confirm(pid, x):
     ok = all([res["demo_clean_passes"], res["applies"], res["suite_unchanged"], res["demo_patched_fails"]])
     print(pid, x, "CONFIRMED" if ok else "REJECTED", res)
     if ok:
-        dst = os.path.join(ROOT, "seeded", f"{pid}-{x}")
+        dst = os.path.join(ROOT, "seeded", f"{pid}-{tag}{x}")
         os.makedirs(dst, exist_ok=True)
         # keep the patch as it applies to the current /repo HEAD
         sh(f"git apply {patch} || git apply -3 {patch}", cwd=SCRATCH)
@@ -94,6 +94,9 @@ def run(name, props):
 
 if __name__ == "__main__":
     if sys.argv[1] == "confirm":
-        confirm(sys.argv[2], sys.argv[3])
+        if len(sys.argv) > 4:
+            confirm(sys.argv[2], sys.argv[3], sys.argv[4], sys.argv[5] if len(sys.argv) > 5 else "")
+        else:
+            confirm(sys.argv[2], sys.argv[3])
     elif sys.argv[1] == "run":
         run(sys.argv[2], sys.argv[3:])
